@@ -23,7 +23,7 @@ Words == {<<>>, <<0, 63>>, <<1, 62>>, <<0, 1, 62, 63>>}
 Op(name, x) == [op |-> name, x |-> x, w |-> <<>>]
 PointOps  == {Op(nm, x) : nm \in {"set", "remove", "flip"}, x \in U}
 BulkOps   == {Op("clear", 0), Op("not", 0)} \cup {[op |-> "from_u64", x |-> 0, w |-> w] : w \in Words}
-BinaryOps == {Op(nm, 0) : nm \in {"and", "or", "xor", "and_assign", "or_assign", "xor_assign"}}
+BinaryOps == {Op(nm, 0) : nm \in {"and", "or", "xor", "and_assign", "or_assign", "xor_assign", "and_self", "or_self", "xor_self"}}
 TOps      == {Op(nm, x) : nm \in {"t_set", "t_flip"}, x \in SU}
 Ops == PointOps \cup BulkOps \cup BinaryOps \cup TOps
 
